@@ -313,6 +313,7 @@ def register(reg):
         ends in one of `exits` (None = normally, else an exception class thrown in at the yield)."""
         k = I.eng.choose(len(exits), "how the with-body ends")
         how = exits[k]
+        I.eng.input_syms.append(("with_body_ends", C.Const(None), "normally" if how is None else getattr(how, "__name__", getattr(how, "name", str(how)))))
         yields = []
 
         def hook(I_, v):
@@ -383,6 +384,7 @@ def register(reg):
                 post=post,
                 inline=list(inline),
                 note=requires_note,
+                replay=make_cm_replay(fname),
                 properties=("C14", "C13") if fname == "executeInGuard" else ("C14",),
             )
         )
@@ -620,6 +622,71 @@ def replay_compile_twice(inputs, clause):
     return f"after compilation veneer.{nm} = {after[nm]!r} (fresh process: {fresh[nm]!r}){extra}"
 
 
+def make_cm_replay(fname):
+    """Unit-level driver: the REAL context manager of scenic.syntax.veneer, entered from a dirty entry state and
+    left normally or by an exception; the module globals are compared before / inside / after."""
+
+    def replay(inputs, clause):
+        import scenic  # noqa: F401
+        import scenic.syntax.veneer as veneer
+        from scenic.core.distributions import RandomControlFlowError
+        from scenic.core.dynamics.scenarios import DynamicScenario
+
+        kinds = {"normally": None, "AnyException": KeyError, "AttributeError": AttributeError, "RandomControlFlowError": RandomControlFlowError}
+        how = inputs.get("with_body_ends") if isinstance(inputs, dict) else None
+        todo = [how] if how in kinds else list(kinds)
+        for kind in todo:
+            exc = kinds[kind]
+            saved = {nm: getattr(veneer, nm) for nm in ("currentBehavior", "currentScenario", "_globalParameters", "evaluatingGuard", "evaluatingRequirement")}
+            try:
+                outer = DynamicScenario._dummy({})
+                outer._ego, outer._workspace = object(), object()
+                scen = DynamicScenario._dummy({})
+                scen._globalParameters = {"innerParam": 2}
+                keys, vals = [object(), object()], [object(), object()]
+                scen._objects, scen._ego = list(keys), keys[0]
+                if fname == "executeInGuard":
+                    args, watch = (), ["evaluatingGuard"]
+                elif fname == "executeInBehavior":
+                    veneer.currentBehavior = object()
+                    args, watch = (object(),), ["currentBehavior"]
+                elif fname == "executeInScenario":
+                    veneer.currentScenario, veneer._globalParameters = outer, {"outerParam": 1}
+                    args, watch = (scen, True), ["currentScenario", "_globalParameters"]
+                else:
+                    veneer.currentScenario = None
+                    args, watch = (scen, vals[0], dict(zip(map(id, keys), vals))), ["evaluatingRequirement", "currentScenario"]
+
+                    class ById(dict):
+                        def __getitem__(self, k):
+                            return dict.__getitem__(self, id(k))
+
+                    args = (scen, vals[0], ById(args[2]))
+                before = {nm: getattr(veneer, nm) for nm in watch}
+                old_objs, old_ego = scen._objects, scen._ego
+                leaked = None
+                try:
+                    with getattr(veneer, fname)(*args):
+                        if exc is not None:
+                            raise exc("raised in the with-body")
+                except (KeyError, AttributeError, RuntimeError, NameError) as e:
+                    leaked = e
+                after = {nm: getattr(veneer, nm) for nm in watch}
+                for nm in watch:
+                    if after[nm] is not before[nm] and after[nm] != before[nm]:
+                        return f"`with veneer.{fname}(...)` left {'normally' if exc is None else 'by ' + exc.__name__}: veneer.{nm} is {after[nm]!r} afterwards, {before[nm]!r} at entry"
+                if fname == "executeInRequirement" and (scen._objects is not old_objs or scen._ego is not old_ego):
+                    return f"`with veneer.executeInRequirement(...)` left {'normally' if exc is None else 'by ' + exc.__name__}: the scenario's objects/ego are not restored"
+                if exc is not None and leaked is None:
+                    return f"`with veneer.{fname}(...)` swallowed the {exc.__name__} raised in its body"
+            finally:
+                for nm, v in saved.items():
+                    setattr(veneer, nm, v)
+        return None
+
+    return replay
+
+
 def replay_running_scenarios(inputs, clause):
     """Sub-scenarios that end out of order: the list of running scenarios must name exactly the running ones."""
     import scenic
@@ -702,38 +769,32 @@ def make_specifier(I, props, tag):
     return spec
 
 
-def make_overridable(I):
-    """An object whose `_override` / `_revert` behave as Constructible's contract (verified below on the real code):
-    `_override(specs)` assigns the specified values and returns {property: value before this call};
-    `_revert(oldVals)` assigns every recorded value back."""
-    obj = PObj("Object", tag="obj")
+def resolve_model(I, specifiers, defaults):
+    """Contract of `_resolveSpecifiers` used here (its correctness is property C06): every property gets the value
+    of the user specifier that specifies it, otherwise the value of its default specifier."""
+    out = PDict()
+    for p, d in zip(defaults.keys, defaults.vals):
+        out.set(p, d.fields["value"].get(p))
+    for spec in I.iterate(specifiers):
+        for p in spec.fields["priorities"].keys:
+            out.set(p, spec.fields["value"].get(p))
+    return (out, None)
+
+
+def make_overridable(I, tag="obj", behavior=None):
+    """A `Constructible` with two user properties; `_override` / `_revert` are the REAL methods (inlined by the
+    contracts below), only specifier resolution is modelled (`resolve_model`)."""
+    obj = PObj(repo_class(f"{OT}:Constructible"), tag=tag)
     obj.orig = {}
     for p in PROPS:
         v = I.eng.fresh_real(f"obj.{p}")
         I.eng.input_syms.append((f"obj.{p}", C.Real(), v))
         obj.fields[p] = v
         obj.orig[p] = v
-    obj.log = []
-
-    def override(specs):
-        old = PDict()
-        specs = I.iterate(specs)
-        for spec in specs:
-            for p in spec.fields["priorities"].keys:
-                old.set(p, obj.fields[p])
-        for spec in specs:
-            for p, v in spec.newvals.items():
-                obj.fields[p] = v
-        obj.log.append(("override", tuple(p for s in specs for p in s.fields["priorities"].keys)))
-        return old
-
-    def revert(oldVals):
-        for p, v in zip(oldVals.keys, oldVals.vals):
-            obj.fields[p] = v
-        obj.log.append(("revert", tuple(oldVals.keys)))
-
-    obj.fields["_override"] = BuiltinFn("_override", override)
-    obj.fields["_revert"] = BuiltinFn("_revert", revert)
+    obj.fields["behavior"] = behavior
+    obj.fields["speed"] = 0
+    obj.fields.update(properties=("foo", "bar", "behavior", "speed"), _propertiesSet=PSet(["foo", "bar", "behavior", "speed"]), _dynamicProperties=PDict([("speed", float)]), _needsSampling=False)
+    obj.fields["_resolveSpecifiers"] = BuiltinFn("_resolveSpecifiers", lambda specs, defaults=None, overriding=False: resolve_model(I, specs, defaults))
     return obj
 
 
@@ -769,7 +830,7 @@ def register_overrides(reg):
         for k in range(n):
             props = SUBSETS[I.eng.choose(len(SUBSETS), f"properties of override #{k + 1}")]
             spec = make_specifier(I, props, f"override{k + 1}")
-            I.run_function(f, [sc, obj, (spec,)], {}, None)
+            I.run_function(f, [sc, obj, (spec,)], {}, reg.contracts[f"{DS}:DynamicScenario._override"].inline_view())
             seq.append(props)
         I.eng.input_syms.append(("overrides", C.Const(None), repr(seq)))
         return seq
@@ -799,7 +860,7 @@ def register_overrides(reg):
             params=dict(self=C.Const(None), reason=C.Const(None), quiet=C.Const(None)),
             setup=setup_stop,
             post=post_stop,
-            inline=["DynamicScenario._override", "Invocable._stop", "endScenario"],
+            inline=["DynamicScenario._override", "Invocable._stop", "endScenario", "Constructible._override", "Constructible._revert"],
             replay=replay_override_twice,
             properties=("C14",),
         ),
@@ -838,24 +899,13 @@ def register_overrides(reg):
             params=dict(self=C.Const(None), obj=C.Const(None), specifiers=C.Const(None)),
             setup=setup_over,
             post=post_over,
-            inline=["DynamicScenario._override"],
-            replay=replay_override_twice,
+            inline=["DynamicScenario._override", "Constructible._override"],
+            replay=replay_override_bookkeeping,
             properties=("C14",),
         )
     )
 
-    # ---- Constructible._override / _revert (the real code behind the object model above)
-    def resolve_model(I, cls_or_self, specifiers, defaults=None, overriding=False):
-        """Contract of _resolveSpecifiers used here (its correctness is property C06): every property gets the
-        value of the user specifier that specifies it, otherwise the value of its default specifier."""
-        out = PDict()
-        for p, d in zip(defaults.keys, defaults.vals):
-            out.set(p, d.fields["value"].get(p))
-        for spec in I.iterate(specifiers):
-            for p in spec.fields["priorities"].keys:
-                out.set(p, spec.fields["value"].get(p))
-        return (out, None)
-
+    # ---- Constructible._override / _revert themselves
     def specifier_ctor(I, cls, args, kwargs):
         s = PObj("Specifier", tag=f"<{args[0]} specifier>")
         s.fields.update(name=args[0], priorities=args[1], value=args[2])
@@ -863,22 +913,14 @@ def register_overrides(reg):
 
     reg.constructors["scenic.core.specifiers:Specifier"] = specifier_ctor
     reg.trust("Specifier(...)", "constructor stub: records name, priorities and value (dependency bookkeeping is C06)")
+    reg.trust("Constructible._resolveSpecifiers", "modelled by its contract: each property gets the value of the user specifier naming it, else of its default specifier (C06)")
 
     def setup_cover(I, env):
         eng = I.eng
-        self = PObj(repo_class(f"{OT}:Constructible"), tag="obj")
-        self.orig = {}
-        for p in PROPS:
-            v = eng.fresh_real(f"obj.{p}")
-            self.fields[p] = v
-            self.orig[p] = v
         beh = PObj("Behavior", tag="behavior")
         beh.assigned = []
         beh.fields["_assignTo"] = BuiltinFn("_assignTo", lambda agent: beh.assigned.append(agent))
-        self.fields["behavior"] = beh if eng.choose(2, "object has a behavior?") == 1 else None
-        self.fields["speed"] = 0
-        self.fields.update(properties=("foo", "bar", "behavior", "speed"), _propertiesSet=PSet(["foo", "bar", "behavior", "speed"]), _dynamicProperties=PDict([("speed", float)]), _needsSampling=False)
-        self.fields["_resolveSpecifiers"] = BuiltinFn("_resolveSpecifiers", lambda specs, defaults=None, overriding=False: resolve_model(I, self, specs, defaults, overriding))
+        self = make_overridable(I, behavior=beh if eng.choose(2, "object has a behavior?") == 1 else None)
         which = eng.choose(5, "overridden properties")
         props = [("foo",), ("bar",), ("foo", "bar"), ("speed",), ("nosuch",)][which]
         spec = PObj("Specifier", tag="override")
@@ -897,6 +939,8 @@ def register_overrides(reg):
                 I.eng.check(f"{name}#raises.object_unchanged_when_refused", self.fields[p] is self.orig[p])
             return
         I.eng.check(f"{name}#raises.SpecifierError.must_for_dynamic_or_unknown_property", props[0] not in ("speed", "nosuch"))
+        if props[0] in ("speed", "nosuch"):
+            return
         old = outcome[1]
         ok = isinstance(old, PDict) and len(old.keys) == len(props) and all(old.has(p) and old.get(p) is self.orig[p] for p in props)
         I.eng.check(f"{name}#ensures.returns_exactly_the_previous_values_of_the_overridden_properties", ok)
@@ -914,10 +958,109 @@ def register_overrides(reg):
             params=dict(self=C.Const(None), specifiers=C.Const(None)),
             setup=setup_cover,
             post=post_cover,
+            replay=replay_constructible_override,
             raises=[C.Raises("SpecifierError", mode="may")],
             properties=("C14",),
         )
     )
+
+
+def replay_override_bookkeeping(inputs, clause):
+    """The REAL DynamicScenario._override on a real object, with the sequence of overrides of the counter-model."""
+    import ast as _ast
+
+    import scenic
+    from scenic.core.dynamics.scenarios import DynamicScenario
+    from scenic.syntax.veneer import With
+
+    seq = [("foo",), ("bar",)]
+    if isinstance(inputs, dict) and "overrides" in inputs:
+        seq = [tuple(x) for x in _ast.literal_eval(inputs["overrides"] or "[]")]
+        this = tuple(k.split(".", 1)[1] for k in inputs if k.startswith("this_override."))
+        if this:
+            seq.append(this)
+    sc = scenic.scenarioFromString("ego = new Object with foo 0, with bar 0")
+    scene, _ = sc.generate()
+    obj = scene.objects[0]
+    ds = DynamicScenario._dummy({})
+    for k, props in enumerate(seq):
+        ds._override(obj, [With(p, k + 1) for p in props])
+    saved = ds._overrides.get(obj, {})
+    want = clause.split("[", 1)[1].rstrip("]") if "[" in clause else None
+    for prop in sorted({p for props in seq for p in props}):
+        if want in ("foo", "bar") and want != prop:
+            continue
+        if saved.get(prop, "<nothing>") != 0:
+            return f"after the overrides {seq} of one object (all properties 0 before), the scenario's record of values to restore is {saved}: for {prop} it has {saved.get(prop, '<nothing>')} instead of 0"
+    return None
+
+
+def replay_constructible_override(inputs, clause):
+    """The REAL Constructible._override / _revert on a real object."""
+    import scenic
+    from scenic.core.errors import SpecifierError
+    from scenic.syntax.veneer import With
+
+    sc = scenic.scenarioFromString("ego = new Object with foo 0, with bar 0")
+    scene, _ = sc.generate()
+    obj = scene.objects[0]
+    for props in (("foo",), ("bar",), ("foo", "bar")):
+        old = obj._override([With(p, 7) for p in props])
+        if old != {p: 0 for p in props}:
+            return f"_override with {props} returned {old} as previous values (all properties were 0)"
+        for p in ("foo", "bar"):
+            if getattr(obj, p) != (7 if p in props else 0):
+                return f"after _override with {props}, {p} reads {getattr(obj, p)}"
+        obj._revert(old)
+        if (obj.foo, obj.bar) != (0, 0):
+            return f"_override with {props} then _revert with the returned values leaves foo, bar = {(obj.foo, obj.bar)} (were 0, 0)"
+    for prop in ("speed", "nosuch"):
+        try:
+            obj._override([With(prop, 1)])
+        except SpecifierError:
+            continue
+        return f"overriding {'the dynamic property' if prop == 'speed' else 'the unknown property'} {prop!r} is accepted"
+    try:
+        obj._override([With("foo", 1)])
+    except SpecifierError:
+        return "overriding the ordinary property 'foo' raises SpecifierError"
+    return None
+
+
+def replay_proxy(inputs, clause):
+    """The REAL dynamic-proxy functions and Object attribute protocol on a real object."""
+    import scenic
+    from scenic.core.object_types import disableDynamicProxyFor, enableDynamicProxyFor
+
+    sc = scenic.scenarioFromString("ego = new Object with foo 5")
+    scene, _ = sc.generate()
+    obj = scene.objects[0]
+    raw = lambda: dict(object.__getattribute__(obj, "__dict__"))  # noqa: E731
+    enableDynamicProxyFor(obj)
+    before = raw()
+    before.pop("_dynamicProxy")
+    if object.__getattribute__(obj, "_dynamicProxy") is obj:
+        return "enableDynamicProxyFor left the object as its own proxy"
+    if obj.foo != 5:
+        return f"right after enabling the proxy obj.foo reads {obj.foo} (5 before)"
+    obj.foo = 9
+    obj.carlaActor = "actor"
+    now = raw()
+    now.pop("_dynamicProxy")
+    changed = [k for k in set(before) | set(now) if before.get(k, "<absent>") is not now.get(k, "<absent>")]
+    if changed:
+        return f"writes through the object during a simulation changed the original's own attributes {sorted(changed)}"
+    if obj.foo != 9 or obj.carlaActor != "actor":
+        return f"values written during the simulation do not read back (foo = {obj.foo})"
+    del obj.carlaActor
+    if hasattr(obj, "carlaActor"):
+        return "del through the object did not remove the attribute from the proxy"
+    disableDynamicProxyFor(obj)
+    if object.__getattribute__(obj, "_dynamicProxy") is not obj:
+        return "after disableDynamicProxyFor the object is not its own proxy"
+    if obj.foo != 5:
+        return f"after the simulation obj.foo reads {obj.foo} (5 before it)"
+    return None
 
 
 def replay_override_twice(inputs, clause):
@@ -1268,6 +1411,12 @@ def register_proxy(reg):
         env.vars["obj"] = make_obj(I)
 
     def post_enable(I, env, outcome):
+        try:
+            return post_enable_inner(I, env, outcome)
+        except SymRaise as sr:
+            I.eng.check("object_types.enableDynamicProxyFor#ensures.attribute_protocol_does_not_raise", False, detail=repr(sr.exc))
+
+    def post_enable_inner(I, env, outcome):
         name = "object_types.enableDynamicProxyFor"
         o = env.vars["obj"]
         if outcome[0] != "return":
@@ -1305,6 +1454,7 @@ def register_proxy(reg):
             params=dict(obj=C.Const(None)),
             setup=setup_enable,
             post=post_enable,
+            replay=replay_proxy,
             properties=("C14",),
         )
     )
